@@ -272,6 +272,20 @@ func (env *Env) setup() error {
 		}
 		env.Root, env.RootCloser = tally.NewRootScope(opts, time.Duration(cfg.IntervalNs))
 		env.main.scopes[0] = &scopeVar{sc: env.Root, ptr: objPtr(env.Root), model: env.Model.Root()}
+		if cfg.Flags["reuse_default_buckets"] == 1 && opts.DefaultBuckets != nil {
+			// the caller goes on to use the slice it passed as DefaultBuckets for
+			// something else: the scope's defaults are what they were at construction
+			switch b := opts.DefaultBuckets.(type) {
+			case tally.ValueBuckets:
+				for i := range b {
+					b[i] = b[i]*10 + 7
+				}
+			case tally.DurationBuckets:
+				for i := range b {
+					b[i] = b[i]*10 + 7
+				}
+			}
+		}
 	case "test":
 		cfg.DefBuckets = nil // NewTestScope takes no default buckets
 		ts := tally.NewTestScope(cfg.Prefix, copyTags(cfg.RootTags))
